@@ -34,11 +34,14 @@
 (*   cmp           ==, partial_cmp, cmp, hash of two stored values next to *)
 (*                 the inner values' answers; rank order for floats        *)
 (*                 (C12, C13)                                              *)
+(*   arb           one call of the derived Arbitrary on a byte string (C09)   *)
+(*   arb_cover     the set of values produced over all inputs up to two bytes *)
+(*                 as contiguous runs, with panic / error counts (C14)        *)
 (*   sort          slice::sort / BTreeSet / max over obtained values (C12)    *)
 (*   ser           serialization of a stored value next to the inner       *)
 (*                 value's / a serde-derived newtype's encoding (C10)      *)
 (***************************************************************************)
-EXTENDS NutypeValue, Json, IOUtils, TLCExt
+EXTENDS NutypeArb, Json, IOUtils, TLCExt
 
 Rec   == ndJsonDeserialize(IOEnv.TRACE)
 Decls == JsonDeserialize(IOEnv.DECLS)
@@ -126,11 +129,25 @@ SortOK(d, made, o) ==
   /\ \A j \in DOMAIN made : \E m \in DOMAIN o.set : CmpOf(d.fam, made[j], o.set[m]) = "Equal"
   /\ (made # <<>> => (o.max # <<>> /\ \A j \in DOMAIN made : RankLe(d.fam, made[j], o.max[1])))
 
+\* C09: one generator call: an arbitrary::Error or a value satisfying every validator; never a panic or a hang
+ArbOK(d, o) == o.k = "aerr" \/ (o.k = "ok" /\ (d.vmode # "std" \/ Violated(d, o.v[1], CodeNanPolicy) = {}))
+
+\* C14: the set produced over ALL byte strings the range can consume is the valid interval
+ValidLo(d) == NMax({d.tmin} \cup {d.val[j].b + 1 : j \in {k \in DOMAIN d.val : d.val[k].k = "greater"}}
+                           \cup {d.val[j].b : j \in {k \in DOMAIN d.val : d.val[k].k = "greater_or_equal"}})
+ValidHi(d) == NMin({d.tmax} \cup {d.val[j].b - 1 : j \in {k \in DOMAIN d.val : d.val[k].k = "less"}}
+                           \cup {d.val[j].b : j \in {k \in DOMAIN d.val : d.val[k].k = "less_or_equal"}})
+CoverOK(d, o) ==
+  /\ o.panics = 0
+  /\ (d.san = <<>> => o.runs = (IF ValidLo(d) <= ValidHi(d) THEN <<<<ValidLo(d), ValidHi(d)>>>> ELSE <<>>))
+
 ObsBad(d, e, i) ==
   CASE e.ep = "views" -> ~ViewsOK(d, e.ins[i].v[1], e.outs[i])
     [] e.ep = "cmp"   -> ~CmpOK(d, e.ins[i].v[1], e.ins[i].v[2], e.outs[i])
     [] e.ep = "ser"   -> ~SerOK(d, e.ins[i].v[1], e.outs[i])
     [] e.ep = "sort"  -> ~SortOK(d, e.ins[i].v[1], e.outs[i])
+    [] e.ep = "arb"   -> ~ArbOK(d, e.outs[i])
+    [] e.ep = "arb_cover" -> ~CoverOK(d, e.outs[i])
     [] OTHER          -> Assert(FALSE, <<"unknown event kind", e.ep>>)
 
 TraceInit == l = 1 /\ pol = [k \in BoundKinds |-> "?"] /\ nbad = 0 /\ ndrift = 0 /\ npairs = 0
